@@ -323,7 +323,7 @@ func checkCmd(opts *RunOpts, args []string) int {
 	witnessCache := map[string]bool{}
 	var unsatCore []string
 	cexCache := map[string]*Cex{}
-	var cov_order, cov_rel, cov_neg, cov_q, cov_h, cov_he, cov_d, cov_f, cov_w, cov_su, cov_c, cov_s, cov_t map[string]any
+	var cov_order, cov_rel, cov_neg, cov_q, cov_h, cov_he, cov_nr, cov_d, cov_f, cov_w, cov_su, cov_c, cov_s, cov_t map[string]any
 
 	for _, res := range run.Results {
 		if res.Trusted {
@@ -671,6 +671,15 @@ func checkCmd(opts *RunOpts, args []string) int {
 		}
 		cov_q = cv
 	}
+	if run.NRRan {
+		_, vl, cv := boundedListVerdict(opts, prop, known, "bounded.netmach.readers_race", "none.txt", run.NRFailing, run.NRTotal,
+			"one program family on a NetworkMachine under the Go race detector: an updater feeding clock updates (ticks growing, the queue tick periodically falling back) and six reader goroutines over Is/Not/Any, Tick/Time/Clock, ActiveStates/String/QueueTick/MachineTick, When/WhenNot/WhenTime, WhenQueue, NewStateCtx/StateNames/Schema; 2 runs (thorough 6)",
+			"", "report a data race", nil)
+		if vl != "" {
+			violations = append(violations, vl)
+		}
+		cov_nr = cv
+	}
 	if run.HeRan {
 		kl, vl, cv := boundedListVerdict(opts, prop, known, "bounded.helpers.truth", "c20_helpers_known.txt", run.HeFailing, run.HeTotal,
 			"wait / ask helpers of pkg/helpers on the real machine: Cant* / Ask* for a possible and a vetoed Add / Remove, Add1Sync / Remove1Sync executed at once, queued then accepted, queued then vetoed, Add1Async with the awaited state activated by a relation, by a handler synchronously, by a goroutine later, and a rejected mutation; WaitForAny / WaitForAll / WaitForErrAny / WaitForErrAll with the channel closing, a timeout and a machine error during the wait; every helper on a disposed machine; 3 s watchdog on every call",
@@ -803,6 +812,9 @@ func checkCmd(opts *RunOpts, args []string) int {
 	}
 	if cov_h != nil {
 		cov["bounded_history_standin"] = cov_h
+	}
+	if cov_nr != nil {
+		cov["bounded_netmach_race_standin"] = cov_nr
 	}
 	if cov_he != nil {
 		cov["bounded_helpers_standin"] = cov_he
